@@ -83,3 +83,22 @@ Fixpoint leaves (fuel : nat) (byu : Z -> list Z) (d : dict cell) (key : Z) : res
           end
       end
   end.
+
+(* ---- value of a number ---- *)
+From Coq Require Import QArith Qpower.
+
+Definition digits_Z (s : string) : Z := Z.of_N (parse_digits s 0).
+
+Definition sign_Q (sg : string) : Q := if String.eqb sg "-" then (-1 # 1) else (1 # 1).
+
+Definition exp_Z (e : option (string * string)) : Z :=
+  match e with
+  | None => 0%Z
+  | Some (es, ed) => if String.eqb es "-" then (- digits_Z ed)%Z else digits_Z ed
+  end.
+
+(* sign * (all mantissa digits read as an integer) * 10^(exponent - number of
+   fraction digits) *)
+Definition number_value (n : number) : Q :=
+  sign_Q (n_sign n) * inject_Z (digits_Z (n_int n ++ frac_digits n)) *
+  Qpower (10 # 1) (exp_Z (n_exp n) - Z.of_nat (String.length (frac_digits n))).
